@@ -242,6 +242,83 @@ fn human_model(m: &Model) -> String {
         cpath(&m.header.path).chars().take(60).collect::<String>(), u8::from(m.header.common.next_header), m.header.common.flow_id, pl)
 }
 
+// ---------------------------------------------------------------- boundary-directed models
+fn simple_header(nh: ProtocolNumber, v6: bool, path: DpPath) -> ScionPacketHeader {
+    let h = |x: u8| if v6 { WireHostAddr::V6(std::net::Ipv6Addr::new(0x2001, 0xdb8, 0, 0, 0, 0, 0, x as u16)) } else { WireHostAddr::V4(std::net::Ipv4Addr::new(10, 0, 0, x)) };
+    ScionPacketHeader {
+        common: CommonHeader { traffic_class: 0, flow_id: 1, next_header: nh },
+        address: AddressHeader { dst_ia: IsdAsn::from_u64(0x0001_ff00_0000_0112), src_ia: IsdAsn::from_u64(0x0001_ff00_0000_0110), dst_host_addr: h(2), src_host_addr: h(1) },
+        path,
+    }
+}
+/// payload of kind `pk` carrying `n` bytes of variable data (pk: 0 raw, 1 udp, 2.. the SCMP kinds)
+fn payload_with(pk: u64, n: usize) -> Option<Pl> {
+    let d = |n: usize| { let mut v = vec![0x61u8; n]; if n > 0 { v[0] = 0x42; v[n - 1] = 0x62; } v };
+    Some(match pk {
+        0 => Pl::Raw(d(n)),
+        1 => Pl::Udp(UdpDatagram::new(30041, 443, d(n))),
+        2 => Pl::Scmp(ScmpEchoRequest::new(7, 9, d(n)).into()),
+        3 => Pl::Scmp(ScmpEchoReply::new(7, 9, d(n)).into()),
+        4 => Pl::Scmp(ScmpMessage::Unknown(ScmpMessageUnknown::new(200, 1, d(n)))),
+        5 => Pl::Scmp(ScmpDestinationUnreachable::new(1u8.into(), d(n)).into()),
+        6 => Pl::Scmp(ScmpPacketTooBig::new(1280, d(n)).into()),
+        7 => Pl::Scmp(ScmpParameterProblem::new(16u8.into(), 4, d(n)).into()),
+        8 => Pl::Scmp(ScmpExternalInterfaceDown::new(IsdAsn::from_u64(0x0001_ff00_0000_0111), 7, d(n)).into()),
+        9 => Pl::Scmp(ScmpInternalConnectivityDown::new(IsdAsn::from_u64(0x0001_ff00_0000_0111), 1, 2, d(n)).into()),
+        10 if n == 0 => Pl::Scmp(ScmpTracerouteRequest::new(3, 4).into()),
+        11 if n == 0 => Pl::Scmp(ScmpTracerouteReply::new(5, 6, IsdAsn::from_u64(0x0001_ff00_0000_0111), 9).into()),
+        _ => return None,
+    })
+}
+fn nh_of(pl: &Pl) -> ProtocolNumber { match pl { Pl::Raw(_) => ProtocolNumber::Other(253), Pl::Udp(_) => ProtocolNumber::Udp, Pl::Scmp(_) => ProtocolNumber::Scmp } }
+/// Every length-field limit, approached from both sides, for EVERY payload kind:
+/// * PayloadLen (16 bit): total payload size 65534 / 65535 / 65536 / 65537 (the variable part is
+///   sized by asking the implementation for the payload's size with no data),
+/// * the 1232-byte cut of the SCMP error quotes (total packet 1231 .. 1234) and a 64 KiB quote,
+/// * UDP length (same limit as PayloadLen, separate check),
+/// * HdrLen (8 bit, 4-byte units): header sizes 1016 / 1020 / 1024 / 1028.
+fn directed_models() -> Vec<(Model, String)> {
+    let mut rng = Rng::new(7);
+    let mut out = vec![];
+    let overhead = |h: &ScionPacketHeader, pk: u64| -> usize {
+        let m = Model { header: h.clone(), pl: payload_with(pk, 0).unwrap() };
+        encode(&m).size.saturating_sub(h.required_size())
+    };
+    let paths: Vec<(DpPath, bool)> = vec![(DpPath::Empty, false), (std_path(&mut rng, &[2, 3], 0, 1), true)];
+    for pk in 0..=9u64 {
+        for (pi, (pa, v6)) in paths.iter().enumerate() {
+            let pl0 = payload_with(pk, 0).unwrap();
+            let h = simple_header(nh_of(&pl0), *v6, pa.clone());
+            let ov = overhead(&h, pk);
+            let totals: &[usize] = if pi == 0 { &[65534, 65535, 65536, 65537] } else { &[65535, 65536] };
+            for &t in totals {
+                out.push((Model { header: h.clone(), pl: payload_with(pk, t - ov).unwrap() }, format!("directed:payload-total-{t}")));
+            }
+            if pk >= 5 {
+                // error quotes: the cut at 1232 bytes of the whole packet
+                let hs = h.required_size();
+                for t in [1231usize, 1232, 1233, 1234] {
+                    out.push((Model { header: h.clone(), pl: payload_with(pk, t - hs - ov).unwrap() }, format!("directed:quote-packet-{t}")));
+                }
+            }
+        }
+    }
+    for pk in [10u64, 11] { let pl = payload_with(pk, 0).unwrap(); out.push((Model { header: simple_header(ProtocolNumber::Scmp, false, DpPath::Empty), pl }, "directed:fixed-size".into())); }
+    // HdrLen: common 12 + address 24 (v4/v4) resp. 48 (v6/v6) + path
+    for pk in [0u64, 1, 2, 5] {
+        let pl = payload_with(pk, 3).unwrap();
+        for data in [980usize, 984, 988, 992] {
+            let pa = DpPath::Unsupported { path_type: PathType::Other(77), data: vec![0x5a; data] };
+            out.push((Model { header: simple_header(nh_of(&pl), false, pa), pl: pl.clone() }, format!("directed:hdrlen-{}", 36 + data)));
+        }
+        for shape in [&[63usize, 14][..], &[63, 15], &[63, 16], &[63, 17]] {
+            let pa = std_path(&mut rng, shape, 1, 63);
+            out.push((Model { header: simple_header(nh_of(&pl), true, pa), pl: pl.clone() }, format!("directed:hdrlen-std-{}hops-v6", shape[0] + shape[1])));
+        }
+    }
+    out
+}
+
 fn main() {
     silence_panics();
     let out = arg("--out").expect("--out dir");
@@ -258,13 +335,17 @@ fn main() {
         if sum.samples.len() < 3 && nontrivial { sum.samples.push(human.clone()); }
         sum.index.push(human); sh.push(case);
     };
-    for i in 0..n_enc {
-        let hostile = i % 3 == 2;
-        let m = model(&mut rng, hostile);
+    let directed = directed_models();
+    let n_dir = directed.len();
+    let mut directed = directed.into_iter();
+    for i in 0..n_enc + n_dir {
+        let hostile = i >= n_dir && (i - n_dir) % 3 == 2;
+        let (m, dtag) = match directed.next() { Some((m, t)) => (m, Some(t)), None => (model(&mut rng, hostile), None) };
+        if let Some(t) = &dtag { sum.count(&format!("enc.{}", t.split('-').next().unwrap_or("directed"))); }
         let e = encode(&m);
         let kind = m.kind();
         let (dec, un) = match &e.bytes { Some(b) => (decode(kind, b), csum_unaligned(&m, b)), None => (Dres::Err, 65536) };
-        sum.count(if hostile { "enc.hostile" } else { "enc.valid_shaped" });
+        sum.count(if dtag.is_some() { "enc.directed" } else if hostile { "enc.hostile" } else { "enc.valid_shaped" });
         sum.count(if e.valid { "enc.accepted" } else { "enc.rejected" });
         sum.count(&format!("enc.kind{kind}"));
         if let Some(b) = &e.bytes { sum.add("enc.bytes", b.len() as u64); if pool.len() < 4000 && b.len() < 3000 { pool.push((kind, b.clone())); } }
@@ -276,7 +357,7 @@ fn main() {
         if tag_alias { sum.count("enc.noncanonical_tag_decoded_unequal"); }
         let case = format!("CE {} {} {} {} {} {} {} {} {}", kind, m.coq(), coq_bool(tag_alias), coq_bool(e.valid), if e.size == usize::MAX { 0 } else { e.size },
             e.bytes.as_ref().map(|b| coq_rle(b)).unwrap_or("[]".into()), dec.coq(), coq_bool(e.dirty_same), un);
-        let human = format!("enc {} valid={} size={} noncanon={} dirty_same={} :: {}", if hostile { "hostile" } else { "shaped" }, e.valid, e.size, m.noncanon(), e.dirty_same, human_model(&m));
+        let human = format!("enc {} valid={} size={} noncanon={} dirty_same={} :: {}", dtag.as_deref().unwrap_or(if hostile { "hostile" } else { "shaped" }), e.valid, e.size, m.noncanon(), e.dirty_same, human_model(&m));
         push(&mut sh, &mut sum, case, human, e.valid);
     }
     // decoder stream
